@@ -88,6 +88,8 @@ fn main() {
     std::env::set_var("RUST_BACKTRACE", "0");
     silence_panics();
     log_everything();
+    // C10 waits for real (up to a few seconds per case); everything else completes a case in milliseconds
+    start_watchdog(path, 180);
     let mut rng = Rng::new(seed);
     let f: fn(&mut Out, &str, &mut Rng) = match prop {
         "C01" => run_c01,
